@@ -189,7 +189,7 @@ func segmentChild(cfg childCfg, ts *server.Teamserver, say func(string), startMS
 	r.exAgents, r.exLinks = cfg.St.ExAgents, cfg.St.ExLinks
 	stop := false
 	r.restartFn = func(forced bool) bool {
-		if !forced && !reopenable(w) {
+		if !forced && !r.restartable() {
 			return false
 		}
 		stop = true
@@ -368,7 +368,7 @@ func runC(h History, mode string) *core.Violation {
 	}
 	for i, op := range ops {
 		if op.K == "restart" || op.K == "restartx" {
-			if op.K == "restartx" || reopenable(w) {
+			if op.K == "restartx" || r.restartable() {
 				handover = i + 1
 				break
 			}
@@ -524,7 +524,7 @@ func runC(h History, mode string) *core.Violation {
 			if p.C == id {
 				wantParent = p.P
 			}
-			if p.P == id {
+			if p.P == id && !r.exLinks[p.C] {
 				wantKids = append(wantKids, p.C)
 			}
 		}
@@ -542,7 +542,7 @@ func runC(h History, mode string) *core.Violation {
 		}
 		gk := []string{}
 		for _, l := range g.Links {
-			if !r.exAgents[l] {
+			if !r.exAgents[l] && !r.exLinks[l] {
 				gk = append(gk, l)
 			}
 		}
@@ -664,7 +664,7 @@ func TestC10c(t *testing.T) {
 	}
 	core.Run(t, core.Spec[History]{
 		Property: "C10", Sub: "c",
-		Rule: "histories as in (a) (1-4 agents, 0-16 operations, one third of the listener adds HTTP on ephemeral ports) plus restart operations in the middle and the crafted update / re-registration families; the first segment is applied in-process, at every effective restart the rest of the history moves to a NEW child process that first runs the real (*Teamserver).Start() on the directory and then applies the following operations to that server (extra.segments_under_real_start); finally a child process runs the real (*Teamserver).Start() on the same directory and reports its sessions (25 recorded values, key, IV, Parent, Links) and its listeners (handlers.HTTPConfig / SMBConfig / ExternalConfig as started). Oracle: restarted state == state of the server before the restart: same active sessions and values, same parent/child structure among them (no nil entries), same listeners with every operator-configured field (Hosts, HostBind, HostRotation, PortBind, PortConn, UserAgent, Headers, Uris, HostHeader, Secure, Proxy; PipeName; Endpoint). Non-trivial as in (a) ADDED: a quarter of the histories are pivot-tree histories with restarts at any point as in (a) (3-5 agents, 3-8 events): every restartx hands the rest of the history to a new child process under the real Start(); each child reports the sessions, Parent and Links it holds right after Start() and the rows of TS_Links, which are compared with the sessions active before that restart and the model of the link events; the final real restart is compared in the same way (signatures any-point-restart|..., links|two-rows-for-one-child) ADDED: listener names also from the kind x name class product of (a); one in eight of the HTTP listeners is HTTPS (Secure=true: the restarted server generates the certificate again); Secure is compared; a missing HTTPS listener is reported as restart|listeners|not-restored|https|<name class> ADDED - SCALE (1 history in 4: only here the REAL Start() restores a large database - (a) and (b) use the transcription of its restore loops in pvx.Reopen and cannot see a defect inside Start() itself): as in (a), pool cut at 1025 sessions / 1025 listeners in the quick tier (4097 / 1025 thorough), no bulk restarts; every restart of such a history is a child process under the real Start() which reports sessions, Parent, Links and TS_Links rows right after Start(); extra.real_start_ms_max@sessions:<bucket> is the longest real Start() seen per number of restored sessions (the child has 60 s to finish restoring)",
+		Rule: "histories as in (a) (1-4 agents, 0-16 operations, one third of the listener adds HTTP on ephemeral ports) plus restart operations in the middle and the crafted update / re-registration families; the first segment is applied in-process, at every effective restart the rest of the history moves to a NEW child process that first runs the real (*Teamserver).Start() on the directory and then applies the following operations to that server (extra.segments_under_real_start); finally a child process runs the real (*Teamserver).Start() on the same directory and reports its sessions (25 recorded values, key, IV, Parent, Links) and its listeners (handlers.HTTPConfig / SMBConfig / ExternalConfig as started). Oracle: restarted state == state of the server before the restart: same active sessions and values, same parent/child structure among them (no nil entries), same listeners with every operator-configured field (Hosts, HostBind, HostRotation, PortBind, PortConn, UserAgent, Headers, Uris, HostHeader, Secure, Proxy; PipeName; Endpoint). Non-trivial as in (a) ADDED: a quarter of the histories are pivot-tree histories with restarts at any point as in (a) (3-5 agents, 3-8 events): every restartx hands the rest of the history to a new child process under the real Start(); each child reports the sessions, Parent and Links it holds right after Start() and the rows of TS_Links, which are compared with the sessions active before that restart and the model of the link events; the final real restart is compared in the same way (signatures any-point-restart|..., links|two-rows-for-one-child) ADDED: listener names also from the kind x name class product of (a); one in eight of the HTTP listeners is HTTPS (Secure=true: the restarted server generates the certificate again); Secure is compared; a missing HTTPS listener is reported as restart|listeners|not-restored|https|<name class> ADDED - SCALE (1 history in 4: only here the REAL Start() restores a large database - (a) and (b) use the transcription of its restore loops in pvx.Reopen and cannot see a defect inside Start() itself): as in (a), pool cut at 1025 sessions / 1025 listeners in the quick tier (4097 / 1025 thorough), no bulk restarts; every restart of such a history is a child process under the real Start() which reports sessions, Parent, Links and TS_Links rows right after Start(); extra.real_start_ms_max@sessions:<bucket> is the longest real Start() seen per number of restored sessions (the child has 60 s to finish restoring) ADDED - FAULT INJECTION as in (a) (a third of the ordinary histories; no lock-held cases): the operation under the fault runs wherever the history has it - in this process or, after a restart, in the child process under the real Start() (the child installs the trigger / takes the lock / makes the directory read-only through its own second connection); the state is compared before every restart that follows the fault (in the parent and in the child) and after the final real Start(); sessions and links left behind by a failed statement of a session's callback are carried over the restarts as in (a); signatures fault|<dependency>:<operation>:<how>|restart|...",
 		Gen:   genC, Check: checkC, Classify: classifyH,
 		Assumptions: []string{
 			"the restarted server is observed through its exported fields (Agents, Listeners) once Start() has appended the profile event, its last action before blocking",
